@@ -17,7 +17,7 @@
 (* commit; with all switches FALSE the module states what the properties    *)
 (* require.                                                                 *)
 (***************************************************************************)
-EXTENDS Integers, Sequences, FiniteSets, TLC
+EXTENDS Integers, Sequences, FiniteSets, TLC, SequencesExt
 
 CONSTANTS
   MaxInstr,      \* total number of instructions executed in one behaviour
@@ -52,7 +52,8 @@ VARIABLES
   world,   \* [bal, stor, tstor, code, exists, nonce, logs, dead]
   frames,  \* stack (Seq) of frame records, top = last
   tree,    \* [nodes: Seq(node), cur: 0..Len(nodes)]   (0 = nil cursor)
-  jrn,     \* [keys: set of <<acct,slot>>, chg: <<acct,slot>> -> idx -> Seq(val), bal: acct -> idx -> Seq(bal)]
+  jrn,     \* [keys: set of <<acct,slot>>, chg: <<acct,slot>> -> idx -> Seq(val), bal: acct -> idx -> Seq(bal),
+           \*  log, xlog: ghost histories of journal instructions / transfers as the PROPERTIES describe them]
   jp,      \* [on, failPos, failKind, count, fired: Seq(firing)]
   ev,      \* Seq of debug-tracer frame callbacks
   host,    \* [phase: "rest"|"busy"|"done", tops, results: Seq, writes: Seq, crashed: BOOLEAN]
@@ -93,7 +94,7 @@ Init ==
   /\ world = World0
   /\ frames = <<>>
   /\ tree = [nodes |-> <<>>, cur |-> 0]
-  /\ jrn = [keys |-> {}, chg |-> <<>>, bal |-> <<>>]
+  /\ jrn = [keys |-> {}, chg |-> <<>>, bal |-> <<>>, log |-> <<>>, xlog |-> <<>>]
   /\ \E on \in JPInit, pos \in 0..MaxFailPos, k \in FailKinds, bs \in BoundSets :
        /\ (pos = 0 => k = CHOOSE x \in FailKinds : TRUE)
        /\ jp = [on |-> on, failPos |-> pos, failKind |-> k, count |-> 0, fired |-> <<>>, bound |-> bs]
@@ -150,14 +151,21 @@ BalJournal(j, w0, w1, from, to, idx) ==
       j4 == JournalAppend(j3, to, idx, w1.bal[to])
   IN [j EXCEPT !.bal = j4]
 
+\* the innermost CALL/CREATE frame on the stack, as the properties speak of it (not the tracer's cursor)
+InnermostNode ==
+  LET S == {i \in 1..Len(frames) : frames[i].hasNode} IN
+  IF S = {} THEN 0 ELSE frames[CHOOSE i \in S : \A j \in S : j <= i].node
+XObs(w0, w1, from, to) == [from |-> from, to |-> to, idx |-> InnermostNode,
+                           obs |-> <<w0.bal[from], w0.bal[to], w1.bal[from], w1.bal[to]>>]
+
 NewFrame(id, kind, from, self, codeAt, value, static, alen, init) ==
   [ id |-> id, kind |-> kind, from |-> from, self |-> self, codeAt |-> codeAt, value |-> value,
     static |-> static, phase |-> "entry", node |-> 0, hasNode |-> FALSE, w0 |-> world, snapped |-> FALSE,
     announced |-> FALSE, running |-> FALSE, err |-> "", ret |-> "", flags |-> <<>>, alen |-> alen,
     init |-> init, ran |-> FALSE, over |-> FALSE ]
 
-Desc(id, kind, parent, codeAt, self, alen, init) ==
-  [ id |-> id, kind |-> kind, parent |-> parent, codeAt |-> codeAt, self |-> self, alen |-> alen,
+Desc(id, kind, parent, from, value, codeAt, self, alen, init) ==
+  [ id |-> id, kind |-> kind, parent |-> parent, from |-> from, value |-> value, codeAt |-> codeAt, self |-> self, alen |-> alen,
     init |-> init, prog |-> <<>>, err |-> "", ret |-> "", flags |-> <<>>, done |-> FALSE ]
 
 AddProg(instr) == [scn EXCEPT !.frames[Top.id].prog = Append(@, instr)]
@@ -183,7 +191,7 @@ TopCall ==
        /\ jp' = [jp EXCEPT !.on = IF tog THEN ~jp.on ELSE jp.on]
        /\ frames' = <<NewFrame(id, "CALL", "eoa", tgt, tgt, v, FALSE, al, "")>>
        /\ scn' = [tops |-> Append(scn.tops, [kind |-> "call", tgt |-> tgt, val |-> v, alen |-> al, jpOn |-> jp'.on, frame |-> id, init |-> ""]),
-                  frames |-> Append(scn.frames, Desc(id, "CALL", 0, tgt, tgt, al, ""))]
+                  frames |-> Append(scn.frames, Desc(id, "CALL", 0, "eoa", v, tgt, tgt, al, ""))]
        /\ host' = [host EXCEPT !.phase = "busy", !.tops = @ + 1]
        /\ budget' = [budget EXCEPT !.nodes = @ - 1]
   /\ UNCHANGED <<tree, jrn, ev>>
@@ -196,7 +204,7 @@ TopCreate ==
        /\ world' = Prepared(world)
        /\ frames' = <<NewFrame(id, "CREATE", "eoa", addr, addr, v, FALSE, 0, ip)>>
        /\ scn' = [tops |-> Append(scn.tops, [kind |-> "create", tgt |-> addr, val |-> v, alen |-> 0, jpOn |-> jp.on, frame |-> id, init |-> ip]),
-                  frames |-> Append(scn.frames, Desc(id, "CREATE", 0, addr, addr, 0, ip))]
+                  frames |-> Append(scn.frames, Desc(id, "CREATE", 0, "eoa", v, addr, addr, 0, ip))]
        /\ host' = [host EXCEPT !.phase = "busy", !.tops = @ + 1]
        /\ budget' = [budget EXCEPT !.nodes = @ - 1]
   /\ UNCHANGED <<tree, jrn, jp, ev>>
@@ -246,7 +254,7 @@ CallOpen ==
         ELSE LET w1 == [world EXCEPT !.exists = @ \cup {to}]
                  w2 == Transfer(w1, f.from, to, f.value)
              IN /\ world' = w2
-                /\ jrn' = BalJournal(jrn, w1, w2, f.from, to, CurIdx)
+                /\ jrn' = [BalJournal(jrn, w1, w2, f.from, to, CurIdx) EXCEPT !.xlog = Append(@, XObs(w1, w2, f.from, to))]
                 /\ ev' = Append(ev, Enter(f))
                 /\ frames' = SetTop([f EXCEPT !.phase = "body", !.w0 = world, !.snapped = TRUE, !.announced = TRUE])
   /\ UNCHANGED <<tree, jp, host, budget, scn>>
@@ -261,7 +269,7 @@ CallBodyTrivial ==
         /\ UNCHANGED host
      \/ /\ f.codeAt = "pw" /\ Berlin
         /\ IF CtxWriteOK(f)
-           THEN /\ host' = [host EXCEPT !.writes = Append(@, f.from)]
+           THEN /\ host' = [host EXCEPT !.writes = Append(@, [by |-> f.from, frame |-> f.id])]
                 /\ frames' = SetTop([f EXCEPT !.phase = "settle"])
            ELSE IF DevCtxNil
                 THEN /\ host' = [host EXCEPT !.crashed = TRUE]
@@ -385,7 +393,7 @@ OtherEntry ==
 
 CreateEntry ==
   /\ frames # <<>> /\ Top.phase = "entry" /\ IsCreateFrame(Top)
-  /\ tree' = TreeAdd(Top.from, "", [frame |-> 0, init |-> Top.init], Top.value)
+  /\ tree' = TreeAdd(Top.from, "", [frame |-> Top.id, init |-> Top.init], Top.value)
   /\ frames' = SetTop([Top EXCEPT !.phase = "check", !.node = Len(tree.nodes) + 1, !.hasNode = TRUE])
   /\ UNCHANGED <<world, jrn, jp, ev, host, budget, scn>>
 
@@ -411,7 +419,7 @@ CreateOpen ==
         ELSE LET w2 == [w1 EXCEPT !.exists = @ \cup {addr}, !.nonce[addr] = IF Eip158 THEN 1 ELSE 0]
                  w3 == Transfer(w2, f.from, addr, f.value)
              IN /\ world' = w3
-                /\ jrn' = BalJournal(jrn, w2, w3, f.from, addr, CurIdx)
+                /\ jrn' = [BalJournal(jrn, w2, w3, f.from, addr, CurIdx) EXCEPT !.xlog = Append(@, XObs(w2, w3, f.from, addr))]
                 /\ ev' = Append(ev, Enter(f))
                 /\ frames' = SetTop([f EXCEPT !.w0 = w1, !.snapped = TRUE, !.announced = TRUE,
                                               !.phase = "run", !.running = TRUE])
@@ -478,7 +486,8 @@ IJournal ==
   /\ \E s \in Slots :
        /\ scn' = AddProg([Instr("JV") EXCEPT !.slot = s])
        /\ IF <<Top.self, s>> \in jrn.keys
-          THEN /\ jrn' = [jrn EXCEPT !.chg = JournalAppend(@, <<Top.self, s>>, CurIdx, world.stor[Top.self][s])]
+          THEN /\ jrn' = [jrn EXCEPT !.chg = JournalAppend(@, <<Top.self, s>>, CurIdx, world.stor[Top.self][s]),
+                                     !.log = Append(@, [acct |-> Top.self, slot |-> s, idx |-> InnermostNode, val |-> world.stor[Top.self][s]])]
                /\ UNCHANGED frames
           ELSE /\ frames' = SetTop(Fail(Top, "jrn")) /\ UNCHANGED jrn
   /\ Tick /\ UNCHANGED <<world, tree, jp, ev, host>>
@@ -527,7 +536,7 @@ ICall ==
                   /\ scn' = AddProg([Instr("CALL") EXCEPT !.kind = k, !.tgt = tgt, !.val = v, !.alen = al, !.over = ov, !.child = 0])
              ELSE /\ frames' = Append(SetTop([p EXCEPT !.over = ov]), child)
                   /\ scn' = [AddProg([Instr("CALL") EXCEPT !.kind = k, !.tgt = tgt, !.val = v, !.alen = al, !.over = ov, !.child = id])
-                             EXCEPT !.frames = Append(@, Desc(id, k, p.id, tgt, self, al, ""))]
+                             EXCEPT !.frames = Append(@, Desc(id, k, p.id, p.self, val, tgt, self, al, ""))]
   /\ budget' = [budget EXCEPT !.instr = @ - 1, !.nodes = @ - 1]
   /\ UNCHANGED <<world, tree, jrn, jp, ev, host>>
 
@@ -545,7 +554,7 @@ ICreate ==
                   /\ scn' = AddProg([Instr("CREATE") EXCEPT !.kind = k, !.val = v, !.init = ip, !.child = 0])
              ELSE /\ frames' = Append(frames, child)
                   /\ scn' = [AddProg([Instr("CREATE") EXCEPT !.kind = k, !.val = v, !.init = ip, !.child = id])
-                             EXCEPT !.frames = Append(@, Desc(id, k, p.id, addr, addr, 0, ip))]
+                             EXCEPT !.frames = Append(@, Desc(id, k, p.id, p.self, v, addr, addr, 0, ip))]
   /\ budget' = [budget EXCEPT !.instr = @ - 1, !.nodes = @ - 1]
   /\ UNCHANGED <<world, tree, jrn, jp, ev, host>>
 
@@ -558,10 +567,17 @@ InitStep ==
           [] f.init = "stop"    -> /\ frames' = SetTop(done([f EXCEPT !.ret = "stub"])) /\ UNCHANGED world
           [] f.init = "sstore"  -> /\ world' = [world EXCEPT !.stor[f.self][0] = 1]
                                    /\ frames' = SetTop(done([f EXCEPT !.ret = "stub"]))
+          [] f.init = "regjv"   -> /\ world' = [world EXCEPT !.stor[f.self][0] = 1]
+                                   /\ frames' = SetTop(done([f EXCEPT !.ret = "stub"]))
           [] f.init = "revert"  -> /\ frames' = SetTop(done([f EXCEPT !.err = "revert", !.ret = "dd"])) /\ UNCHANGED world
           [] f.init = "invalid" -> /\ frames' = SetTop(done([f EXCEPT !.err = "invalid"])) /\ UNCHANGED world
-          [] f.init = "big"     -> /\ frames' = SetTop(done([f EXCEPT !.err = "codesize"])) /\ UNCHANGED world
-  /\ UNCHANGED <<tree, jrn, jp, ev, host, budget, scn>>
+          [] f.init = "big"     -> /\ frames' = SetTop(done([f EXCEPT !.err = "codesize", !.ret = "big"])) /\ UNCHANGED world
+  /\ jrn' = IF Top.init = "regjv"
+            THEN [jrn EXCEPT !.keys = @ \cup {<<Top.self, 0>>},
+                             !.chg = JournalAppend(@, <<Top.self, 0>>, CurIdx, 1),
+                             !.log = Append(@, [acct |-> Top.self, slot |-> 0, idx |-> InnermostNode, val |-> 1])]
+            ELSE jrn
+  /\ UNCHANGED <<tree, jp, ev, host, budget, scn>>
 
 \* create epilogue (evm.go:618-639): code deposit for a successful init run
 CreateDeposit ==
@@ -656,6 +672,9 @@ JPOnlyCode ==
   \A i \in 1..Len(jp.fired) :
      LET d == scn.frames[jp.fired[i].frame] IN d.kind = "CALL" /\ d.codeAt \notin Precompiles
 
+\* C05: a join point fails only where the scenario injects a failure (empty calldata, any value: no exception)
+JPFailsOnlyInjected == \A i \in 1..Len(jp.fired) : jp.fired[i].failed => i = jp.failPos
+
 \* C13: balance journal entries exist only under call indices of CALL/CREATE nodes
 BalIdxValid ==
   \A a \in DOMAIN jrn.bal : \A i \in DOMAIN jrn.bal[a] : i \in NodeIdx
@@ -679,6 +698,92 @@ TransientFresh ==
 
 \* C14: a context write is attributed to the contract whose call reached the precompile
 NoCrash == ~host.crashed
+
+\* C04: the success flags a frame has seen are exactly the outcomes of its finished children, in order
+ChildFlags(pid) ==
+  LET ids == SetToSortSeq({j \in 1..Len(scn.frames) : scn.frames[j].parent = pid /\ scn.frames[j].done}, <)
+  IN [k \in 1..Len(ids) |-> IF scn.frames[ids[k]].err = "" THEN 1 ELSE 0]
+FailureSeen ==
+  /\ \A i \in 1..Len(frames) : frames[i].flags = ChildFlags(frames[i].id)
+  /\ \A j \in 1..Len(scn.frames) : scn.frames[j].done => scn.frames[j].flags = ChildFlags(j)
+
+\* C08: every attempted CALL/CREATE/CREATE2 has exactly one node, carrying the inputs of the attempt
+\* and, once finished, the outcome handed back to the issuer
+Entered(j) == scn.frames[j].done \/ \E i \in 1..Len(frames) : frames[i].id = j /\ frames[i].hasNode
+NodeFrames == {j \in 1..Len(scn.frames) : scn.frames[j].kind \in {"CALL", "CREATE", "CREATE2"} /\ Entered(j)}
+NearestNodeFrame(j) ==
+  LET RECURSIVE up(_)
+      up(k) == IF k = 0 THEN 0
+               ELSE IF scn.frames[k].kind \in {"CALL", "CREATE", "CREATE2"} THEN k ELSE up(scn.frames[k].parent)
+  IN up(scn.frames[j].parent)
+TreeRecords ==
+  /\ Len(Nodes) = Cardinality(NodeFrames)
+  /\ \A j \in NodeFrames :
+       LET d == scn.frames[j]
+           S == {i \in NodeIdx : Nodes[i].data.frame = j}
+       IN /\ Cardinality(S) = 1
+          /\ \A i \in S :
+               /\ Nodes[i].from = d.from /\ Nodes[i].value = d.value
+               /\ Nodes[i].to = (IF d.kind = "CALL" THEN d.self ELSE "")
+               /\ Nodes[i].data.init = d.init
+               /\ (Nodes[i].parent = 0) = (NearestNodeFrame(j) = 0)
+               /\ (Nodes[i].parent # 0 => Nodes[Nodes[i].parent].data.frame = NearestNodeFrame(j))
+               /\ (d.done => Nodes[i].ret = d.ret /\ Nodes[i].err = d.err /\ ~Nodes[i].open)
+  \* program order: node indices increase with frame ids
+  /\ \A i1, i2 \in NodeIdx : i1 < i2 => Nodes[i1].data.frame < Nodes[i2].data.frame
+
+\* C10: each (account, key, call) list is the collapsed chronological sequence of the journal
+\* instructions executed for that storage context while that CALL/CREATE frame was innermost
+Collapse(s) ==
+  LET RECURSIVE c(_, _)
+      c(i, acc) == IF i > Len(s) THEN acc ELSE c(i + 1, AppendCollapsed(acc, s[i]))
+  IN c(1, <<>>)
+LogVals(k, i) == LET sel == SelectSeq(jrn.log, LAMBDA e : <<e.acct, e.slot>> = k /\ e.idx = i)
+                 IN [n \in 1..Len(sel) |-> sel[n].val]
+JournalAttr ==
+  /\ \A k \in DOMAIN jrn.chg : \A i \in DOMAIN jrn.chg[k] : jrn.chg[k][i] = Collapse(LogVals(k, i)) /\ jrn.chg[k][i] # <<>>
+  /\ \A n \in 1..Len(jrn.log) : LET e == jrn.log[n] IN
+        /\ <<e.acct, e.slot>> \in DOMAIN jrn.chg /\ e.idx \in DOMAIN jrn.chg[<<e.acct, e.slot>>]
+        /\ e.idx \in NodeIdx
+\* journals only grow; world reverts never touch them
+JournalMonotone ==
+  [][/\ jrn.keys \subseteq jrn'.keys
+     /\ \A k \in DOMAIN jrn.chg : k \in DOMAIN jrn'.chg /\ \A i \in DOMAIN jrn.chg[k] :
+           i \in DOMAIN jrn'.chg[k] /\ IsPrefix(jrn.chg[k][i], jrn'.chg[k][i])]_vars
+
+\* C13: the balance journal is exactly the collapsed sequence of the observations around each transfer
+ObsOf(a, i) ==
+  LET RECURSIVE walk(_, _)
+      walk(n, acc) ==
+        IF n > Len(jrn.xlog) THEN acc
+        ELSE LET x == jrn.xlog[n]
+                 a1 == IF x.idx = i /\ x.from = a THEN AppendCollapsed(acc, x.obs[1]) ELSE acc
+                 a2 == IF x.idx = i /\ x.to = a THEN AppendCollapsed(a1, x.obs[2]) ELSE a1
+                 a3 == IF x.idx = i /\ x.from = a THEN AppendCollapsed(a2, x.obs[3]) ELSE a2
+                 a4 == IF x.idx = i /\ x.to = a THEN AppendCollapsed(a3, x.obs[4]) ELSE a3
+             IN walk(n + 1, a4)
+  IN walk(1, <<>>)
+BalanceBrackets ==
+  /\ \A a \in DOMAIN jrn.bal : \A i \in DOMAIN jrn.bal[a] : jrn.bal[a][i] = ObsOf(a, i) /\ jrn.bal[a][i] # <<>>
+  /\ \A n \in 1..Len(jrn.xlog) : LET x == jrn.xlog[n] IN
+        /\ x.idx \in NodeIdx
+        /\ x.from \in DOMAIN jrn.bal /\ x.idx \in DOMAIN jrn.bal[x.from]
+        /\ x.to \in DOMAIN jrn.bal /\ x.idx \in DOMAIN jrn.bal[x.to]
+BalJournalMonotone ==
+  [][\A a \in DOMAIN jrn.bal : a \in DOMAIN jrn'.bal /\ \A i \in DOMAIN jrn.bal[a] :
+        i \in DOMAIN jrn'.bal[a] /\ IsPrefix(jrn.bal[a][i], jrn'.bal[a][i])]_vars
+
+\* C14: a context write is attributed to the caller of the CALL frame that reached the precompile
+CtxWriteAttr ==
+  \A k \in 1..Len(host.writes) : LET w == host.writes[k] IN
+     scn.frames[w.frame].kind = "CALL" /\ scn.frames[w.frame].codeAt = "pw" /\ w.by = scn.frames[w.frame].from
+
+\* C15: transient storage changes only for the executing storage context, by a revert, or at transaction start
+TransientLocal ==
+  [][\A x \in AllAddr : world'.tstor[x] # world.tstor[x] =>
+        \/ frames = <<>>                                        \* Prepare() at transaction start
+        \/ (frames # <<>> /\ Top.phase = "settle")              \* revert to the frame's snapshot
+        \/ (frames # <<>> /\ Top.phase = "run" /\ x = Top.self /\ ~Top.static /\ Cancun)]_vars
 
 TypeOK ==
   /\ budget.instr \in 0..MaxInstr /\ budget.nodes \in 0..MaxNodes
@@ -710,7 +815,7 @@ Expect ==
     fired  |-> jp.fired,
     ev     |-> ev,
     results |-> host.results,
-    writes |-> host.writes,
+    writes |-> [k \in 1..Len(host.writes) |-> host.writes[k].by],
     keys   |-> jrn.keys,
     chg    |-> UNION {{[acct |-> k[1], slot |-> k[2], idx |-> i - 1, vals |-> jrn.chg[k][i]] : i \in DOMAIN jrn.chg[k]} : k \in DOMAIN jrn.chg},
     balj   |-> UNION {{[acct |-> a, idx |-> i - 1, vals |-> jrn.bal[a][i]] : i \in DOMAIN jrn.bal[a]} : a \in DOMAIN jrn.bal}
